@@ -15,4 +15,8 @@ func init() {
 	twin("C09", "guard-inverted-form", "h2/relay.go", "\t\tif f.flowControlSize() > *connectionWindowSize || f.flowControlSize() > w.windowSize {\n\t\t\tbreak\n\t\t}\n", "\t\tif !(f.flowControlSize() <= *connectionWindowSize && w.windowSize >= f.flowControlSize()) {\n\t\t\tbreak\n\t\t}\n")
 	mut("C09", "rst-deletes-output-buffer", "h2/relay.go", "func (r *relay) rstStream(id uint32, errCode http2.ErrCode) {\n", "func (r *relay) rstStream(id uint32, errCode http2.ErrCode) {\n\tr.flowMu.Lock()\n\tdelete(r.outputBuffers, id)\n\tr.flowMu.Unlock()\n", "C09.R4", "outputBuffers")
 	mut("C09", "window-comparison-excludes-equality", "h2/relay.go", "f.flowControlSize() > *connectionWindowSize ||", "f.flowControlSize() >= *connectionWindowSize ||", "C09.R2", "exactly fills")
+	mut("C09", "initial-window-delta-sign", "h2/relay.go", "delta := int(v) - int(r.initialWindowSize)", "delta := int(v) + int(r.initialWindowSize)", "C09.R2", "new minus old")
+	mut("C09", "continuation-rest-not-advanced", "h2/relay.go", "\t\tchunks = append(chunks, buf)\n\t\tremaining = remaining[nextChunkLength:]\n", "\t\tchunks = append(chunks, buf)\n\t\tremaining = remaining[len(buf)-1:]\n", "C09.R5", "advanced by the chunk")
+	mut("C09", "first-chunk-not-clamped", "h2/relay.go", "\tif firstChunkLength > firstChunkMax {\n\t\tfirstChunkLength = firstChunkMax\n\t}\n", "\tif firstChunkLength < firstChunkMax {\n\t\tfirstChunkLength = firstChunkMax\n\t}\n", "C09.R5", "at most its limit")
+	twin("C09", "clamp-written-with-min-form", "h2/relay.go", "\tif firstChunkLength > firstChunkMax {\n\t\tfirstChunkLength = firstChunkMax\n\t}\n", "\tif firstChunkMax <= firstChunkLength {\n\t\tfirstChunkLength = firstChunkMax\n\t}\n")
 }
